@@ -93,7 +93,7 @@ fn expected(dsl: &str, source: &str, o: &Opts) -> Result<Expected, LibPanic> {
         }
         ExecOutcome::Err(_) => Ok(Expected::Fail("execution failed")),
         ExecOutcome::Panic(p) => Err(p),
-        ExecOutcome::PollBound(_) => Ok(Expected::Fail("execution did not finish")),
+        ExecOutcome::PollBound(_) => Err(LibPanic { message: "skip: poll bound".into() }),
     }
 }
 
@@ -140,6 +140,7 @@ pub fn case(tape: &[u32]) -> CaseOutcome {
 
     let exp = match expected(&dsl, &source, &opts) {
         Ok(e) => e,
+        Err(p) if p.message.starts_with("skip:") => return CaseOutcome::Discard("in-process run too long"),
         Err(p) => return CaseOutcome::Fail(Failure::new(format!("C19:library-{}", p.signature()), p.message, json!({"dsl": dsl, "source": source}))),
     };
     // run the CLI
